@@ -16,7 +16,9 @@ THEOREMS = ["C11_replay_invariant", "C11_rebuilt_wellformed", "C11_log_grows_onl
             # resumed runs; rewind on start
             "C11_resumed_runs", "C11_rewind_keeps", "C11_refuted_rewind_idempotent", "C11_rewind_idempotent_partial",
             # the recording discipline over whole histories, tied to the source
-            "C11_log_is_reduced_ticks", "C11_drain_records_what_it_reduces", "C11_source_shape"]
+            "C11_log_is_reduced_ticks", "C11_drain_records_what_it_reduces", "C11_source_shape",
+            # a worker task that ends cancelled while the run goes on: neither state nor log moves
+            "C11_worker_gone_moves_nothing"]
 LEAN_TARGETS = ["WfProps.C11"]
 EXPLANATION = (
     "Runner LTS, recorded times: at every point of every run (any start state, schedule, results, external ticks) the live reducer "
@@ -223,6 +225,48 @@ def run(env: Env) -> Outcome:
     trs = suite.live_runs(env, out, env.budget(80, 1600), [rebuild_mod.mon_c11_classified], gen_kwargs={"family": "retry"}, mutate_spec=many_snapshots)
     _views(env, out, trs, "retry", vrng)
     _resumed_runs(env, out, env.budget(120, 2400))
+
+    def self_cancelled_worker(spec: dict, rng) -> dict:
+        # a worker task that ends CANCELLED while the run goes on: a step body that raises asyncio.CancelledError itself (it awaits
+        # an inner task that was cancelled); no step result exists for it, so no tick is recorded -- the live state must not move
+        # either.  Followed by more events for the same step, snapshots in between, and whatever else the generated run does.
+        spec = attempt_based(spec, rng)
+        cands = [st for st in spec["steps"] if st.get("role") != "handler" and not st.get("sync")]
+        non_start = [st for st in cands if 0 not in st["accepts"]]
+        for st in rng.sample(non_start or cands, min(len(non_start or cands), rng.choice([1, 1, 2]))):
+            mode = rng.choice([["first", 1], ["first", 1], ["first", 2], ["k", [1]], ["k", [2]], ["k", [1, 2]], ["always"]])
+            gates = [i for i, a in enumerate(st["script"]) if a[0] == "gate"]
+            at = rng.choice([0, 0] + [i + 1 for i in gates])  # at once, or after awaited I/O
+            st["script"].insert(at, ["self_cancel"] + mode)
+            if rng.random() < 0.5:
+                st["nw"] = 1  # later events for the step queue up behind the slot
+            tys = [t for t in st["accepts"] if t not in (0, 4)]
+            for _ in range(rng.randint(1, 3) if tys else 0):
+                spec.setdefault("externals", []).append({"op": "send", "ty": rng.choice(tys), "k": rng.choice([None, 1, 2, 3]), "step": None,
+                                                         "after_quiet": rng.randint(0, 6)})
+        for _ in range(rng.randint(1, 3)):
+            spec.setdefault("externals", []).append({"op": "snapshot", "after_quiet": rng.randint(0, 8)})
+        if rng.random() < 0.5:
+            spec["snapshot_after_end"] = True
+        return spec
+
+    # the runner-LTS correspondence of these runs needs the `wgone` action (corr.runner_lines emits it where a self-cancelled
+    # worker left the runner's task set)
+    trs = suite.live_runs(env, out, env.budget(100, 2000), [rebuild_mod.mon_c11_classified], gen_kwargs={"family": "general"},
+                          mutate_spec=self_cancelled_worker)
+    for tr in trs:
+        n_sc = sum(1 for r in tr.steps if r[0] == "self_cancel")
+        out.count(f"self_cancel:workers_ended_cancelled:{min(n_sc, 3)}")
+        if n_sc:
+            calls = [c for c in tr.calls if c.caller == "_process_tick"]
+            first = min(r[5]["at_call"] for r in tr.steps if r[0] == "self_cancel")
+            later = sum(1 for c in tr.calls[first:] if c.caller == "_process_tick")
+            out.count("self_cancel:ticks_after:" + ("0" if later == 0 else "1-3" if later <= 3 else "4+"))
+            scs = {r[1] for r in tr.steps if r[0] == "self_cancel"}
+            again = any(r[0] == "enter" and r[1] in scs and i > min(j for j, q in enumerate(tr.steps) if q[0] == "self_cancel")
+                        for i, r in enumerate(tr.steps))
+            out.count("self_cancel:same_step_entered_again:" + ("yes" if again else "no"))
+    _views(env, out, trs, "self_cancel", vrng)
 
     def elapsed_time_policy(spec: dict, rng) -> dict:
         # OUTSIDE the proved guard (C11_refuted_elapsed_time_policy): every retry policy gives up by elapsed time (stop_after_delay).
